@@ -12,10 +12,16 @@
 package interp
 
 import (
+	"crypto/sha256"
+	"encoding/base64"
+	"encoding/hex"
 	"fmt"
 	"go/token"
 	"go/types"
+	"os"
+	"runtime/debug"
 	"strconv"
+	"sync"
 )
 
 type SegKind uint8
@@ -150,6 +156,13 @@ func strEq(x, y value) value {
 			cs = append(cs, c)
 		}
 		return mkScalar(And(cs...), types.Bool)
+	}
+	// a digest token against the concrete text of a digest computed earlier
+	if len(a) == 1 && a[0].K == SegDigest && !hasTokens(b) {
+		return digestVsConcrete(a[0], b)
+	}
+	if len(b) == 1 && b[0].K == SegDigest && !hasTokens(a) {
+		return digestVsConcrete(b[0], a)
 	}
 	var cs []*Term
 	i, j := 0, 0
@@ -345,13 +358,33 @@ func (e *Explorer) flattenSegs(segs []Seg) []Seg {
 			v := e.ConcretiseBV(s.T, e.concCap(), "integer text")
 			out = append(out, strSegs(strconv.FormatInt(int64(v), 10))...)
 		case SegDigest:
-			panic(pathAbort{"unsupported", "byte-level access to a symbolic digest"})
+			// concretise the tokens of the preimage; a fully concrete
+			// preimage yields the real digest text
+			pre := e.flattenSegs(s.Pre.S)
+			if ps, ok := mkString(pre).(string); ok {
+				out = append(out, strSegs(nativeDigest(s.Alg, ps))...)
+			} else {
+				p := SymString{S: pre}
+				out = append(out, Seg{K: SegDigest, Alg: s.Alg, Pre: &p})
+			}
 		}
 	}
 	return out
 }
 
+// flatten returns a byte-only string (for byte-level access); a digest of
+// a symbolic preimage cannot be flattened.
 func (e *Explorer) flatten(v value) value {
+	r := e.flattenEq(v)
+	if ss, ok := r.(SymString); ok && hasTokens(ss.S) {
+		panic(pathAbort{"unsupported", "byte-level access to a symbolic digest" + dbgStack()})
+	}
+	return r
+}
+
+// flattenEq concretises number tokens (also inside digest preimages) so
+// that equality can be decided segment-wise.
+func (e *Explorer) flattenEq(v value) value {
 	switch v := v.(type) {
 	case string:
 		return v
@@ -365,6 +398,13 @@ func (e *Explorer) flatten(v value) value {
 }
 
 func (e *Explorer) concCap() int { return 24 }
+
+func dbgStack() string {
+	if os.Getenv("VERIF_DEBUG") == "" {
+		return ""
+	}
+	return "\n" + string(debug.Stack())
+}
 
 // concretiseF64 enumerates the feasible values of a float64 term.
 func (e *Explorer) concretiseF64(t *Term) float64 {
@@ -390,4 +430,45 @@ func (e *Explorer) strLen(v value) (value, int) {
 	}
 	f := e.flatten(v)
 	return f, len(strSegs(f))
+}
+
+// nativeDigest computes the text of a digest token whose preimage is
+// concrete. Alg is "sha256" optionally followed by "+hex", "+b64std" or
+// "+b64url".
+func nativeDigest(alg, pre string) string {
+	sum := sha256.Sum256([]byte(pre))
+	var out string
+	switch alg {
+	case "sha256":
+		out = string(sum[:])
+	case "sha256+hex":
+		out = hex.EncodeToString(sum[:])
+	case "sha256+b64std":
+		out = base64.StdEncoding.EncodeToString(sum[:])
+	case "sha256+b64url":
+		out = base64.URLEncoding.EncodeToString(sum[:])
+	default:
+		panic(pathAbort{"engine", "nativeDigest: unknown algorithm " + alg})
+	}
+	knownDigests.Store(alg+"|"+out, pre)
+	return out
+}
+
+// knownDigests maps the concrete text of digests computed natively (by the
+// sha256/hex/base64 intrinsics) to their preimages, so that a symbolic
+// digest can be compared with a concrete one through the preimages.
+var knownDigests sync.Map
+
+func digestVsConcrete(d Seg, other []Seg) value {
+	s, ok := mkString(other).(string)
+	if !ok {
+		panic(needFlatten{"digest compared with symbolic bytes"})
+	}
+	pre, ok := knownDigests.Load(d.Alg + "|" + s)
+	if !ok {
+		// not the text of any digest computed so far: different under the
+		// collision-freedom assumption
+		return false
+	}
+	return strEq(*d.Pre, pre.(string))
 }
